@@ -81,7 +81,8 @@ def wrap(rng: random.Random, g, rank: str, backing: str):
     if backing == "dask":
         data = da.from_array(data, chunks=tuple(max(1, s // 2) for s in shape))
     t = ["2020-01-01", "2020-01-02"] if rank == "tyx" else None
-    return wrap_xr(data, g, time=t, nodata=rng.choice([None, -1]))
+    name = rng.choice(["spatial_ref", "spatial_ref", "crs", "projection"])
+    return wrap_xr(data, g, time=t, nodata=rng.choice([None, -1]), crs_coord_name=name)
 
 
 def case_history(mon: Monitor, rng: random.Random) -> None:
@@ -201,7 +202,8 @@ def case_reproject(mon: Monitor, rng: random.Random) -> None:
     how_kind = rng.choice(["geobox", "geobox", "crs", "crs-lower", "utm"]) if cross else rng.choice(["geobox", "geobox", "crs"])
     data = (np.arange(H * W).reshape(H, W) % 50 + 1).astype(rng.choice(["int16", "float32", "uint8"]))
     mk = (lambda a: da.from_array(a, chunks=(max(1, H // 2), max(1, W // 2)))) if backing == "dask" else (lambda a: a)
-    xx = wrap_xr(mk(data), src, nodata=rng.choice([None, 0]))
+    coord_name = rng.choice(["spatial_ref", "spatial_ref", "crs", "projection"])
+    xx = wrap_xr(mk(data), src, nodata=rng.choice([None, 0]), crs_coord_name=coord_name)
     xx.attrs.update({"crs": str(src.crs), "units": "furlongs"} if rng.random() < 0.5 else {"epsg": 0, "long_name": "thing"})
     if how_kind == "geobox":
         how, want = dst, dst
@@ -210,7 +212,7 @@ def case_reproject(mon: Monitor, rng: random.Random) -> None:
         want, e = call(xx.odc.output_geobox, how)
         if e is not None:
             return mon.skip("reproject", "output_geobox failed (C11's domain)")
-    desc = {"src": gen.gbox_desc(src), "how": how_kind, "dst": gen.gbox_desc(want), "container": container, "backing": backing, "placement": place}
+    desc = {"src": gen.gbox_desc(src), "how": how_kind, "dst": gen.gbox_desc(want), "container": container, "backing": backing, "placement": place, "crs_coord_name": coord_name}
     cls = f"{container}|{'cross' if cross else 'same'}|{how_kind}"
     if container == "DataArray":
         out, e = call(xr_reproject, xx, how) if rng.random() < 0.5 else call(xx.odc.reproject, how)
@@ -243,6 +245,14 @@ def case_reproject(mon: Monitor, rng: random.Random) -> None:
                   "other_attrs_kept": kept, "exc": e}, key="reproject-stale-attrs" if stale else "reproject-geobox", cls=cls, sig=hsig("r", repr(desc), name), sample=desc)
         if ok_g and getattr(gg, "linear", True):
             mon.obs["reproject_geobox_bit_identical" if gg == want else "reproject_geobox_equal_to_roundoff"] += 1
+        # the registration of a reprojected array survives the same element-wise operations as any other array
+        if ok_g:
+            step = rng.choice(["+1", "astype", "*2", "pickle", "copy"])
+            o2, e = call({"+1": lambda z: z + 1, "astype": lambda z: z.astype("float64"), "*2": lambda z: z * 2, "pickle": lambda z: pickle.loads(pickle.dumps(z)), "copy": lambda z: z.copy()}[step], o)
+            g2, e2 = call(lambda: o2.odc.geobox) if e is None else (None, e)
+            ok2 = e is None and e2 is None and same_box(g2, want) and g2.crs == want.crs and o2.odc.crs == want.crs
+            mon.check(ok2, "reproject.then-op", lambda: {**desc, "variable": name, "op": step, "recovered": gen.gbox_desc(g2) if g2 is not None else None, "crs": str(getattr(g2, "crs", None))[:40], "exc": e or e2},
+                      key="reproject-then-op-geobox", cls=cls + ("" if coord_name == "spatial_ref" else "|custom-crs-coord"), sig=hsig("ro", repr(desc), name, step))
 
 
 CASES = {"history": case_history, "reproject": case_reproject}
@@ -260,7 +270,7 @@ def run(mon: Monitor, tier: str, seed: int, shard: int, nshards: int) -> None:
             except Exception as e:
                 mon.error(kind, e)
     mon.case = None
-    for pt, n in [("roundtrip", 600), ("history", 800), ("reproject", 150), ("reproject.dataset", 30), ("reproject.passthrough", 30), ("roundtrip|gcp", 30), ("roundtrip|rotated|thin", 3),
+    for pt, n in [("roundtrip", 600), ("history", 800), ("reproject", 150), ("reproject.dataset", 30), ("reproject.passthrough", 30), ("reproject.then-op", 150), ("roundtrip|gcp", 30), ("roundtrip|rotated|thin", 3),
                   ("roundtrip|north-up|thin", 10), ("history|rotated|strided|reversed", 3), ("history|north-up|strided", 10), ("reproject|Dataset|cross|utm", 1), ("reproject|DataArray|cross|geobox", 10),
                   ("reproject|Dataset|cross|geobox", 5)]:
         mon.floor(pt, n)
